@@ -172,7 +172,7 @@ fn hist_case(run_seed: u64, tier: Tier, profile: Profile) -> Case {
 
 const HIST_ASSUMPTIONS: &[&str] = &[
     "sampling, not proof: a clean batch is evidence over the explored runs only",
-    "tasks are atomic between scheduling points (lock/condvar/channel operations, unlocked_fair entry/exit, SimFs calls, H4 hooks); intra-skiplist interleavings and weak-memory effects are not explored",
+    "tasks are atomic between scheduling points (lock/condvar/channel operations, a point of its own AFTER every mutex release, unlocked_fair entry/exit, SimFs calls, H4 hooks); intra-skiplist interleavings and weak-memory effects are not explored",
     "the parking_lot shim provides mutual exclusion and condvar wake-ups and nothing stronger than parking_lot",
     "SimFs models POSIX file semantics as used by fs_disk.rs; no short reads/writes, no EINTR",
 ];
